@@ -15,7 +15,7 @@ EXTENDS Integers, Sequences, TLC, Json
 
 CONSTANT WorldFile
 W == JsonDeserialize(WorldFile)
-INSTANCE Peg WITH G <- W.grammar, Checked <- W.checked
+INSTANCE Peg WITH G <- W.grammar, Checked <- W.checked, Traced <- W.traced
 
 VARIABLES inp, k, seed      \* seed: index of a prefabricated input (0 = built from tokens)
 vars == <<inp, k, seed>>
@@ -54,7 +54,7 @@ Emit ==
          bud == IF W.budgets THEN [b \in Budgets(r.cnt) |-> Run(inp, b)] ELSE <<>>
      IN /\ Assert(ShapeOK(r), <<"result shape (C10)", inp>>)
         /\ W.budgets => \A b \in Budgets(r.cnt) : Assert(BudgetOK(r, b, bud[b]), <<"budget law (C11)", inp, b>>)
-        /\ PrintT("CASE " \o ToJson([inp |-> inp, obs |-> Observed(r), cnt |-> r.cnt, h |-> r.h, errs |-> r.errs, seed |-> seed,
+        /\ PrintT("CASE " \o ToJson([inp |-> inp, obs |-> Observed(r), cnt |-> r.cnt, h |-> r.h, tr |-> W.traced, errs |-> r.errs, seed |-> seed,
                                      rt |-> IF seed > 0 /\ Len(W.expect) >= seed
                                             THEN Observed(r).acc = "yes" /\ Observed(r).ast = W.expect[seed] ELSE TRUE,
                                      bud |-> IF W.budgets THEN [b \in Budgets(r.cnt) |-> Observed(bud[b])] ELSE <<>>]))
